@@ -411,6 +411,10 @@ func (s *streamGRPC) RecvMsg(m interface{}) error {
 			bufPool.Put(buf)
 			return err
 		}
+		if buf.Len() > s.opts.maxReceiveMessageSize {
+			bufPool.Put(buf)
+			return fmt.Errorf("grpc: received message after decompression larger than max (%d vs. %d)", buf.Len(), s.opts.maxReceiveMessageSize)
+		}
 		size = uint32(buf.Len())
 		if int(size) > cap(b) {
 			b = make([]byte, 0, growcap(cap(b), int(size)))
